@@ -1,6 +1,12 @@
-"""C09: concurrent notify / free / create on related notes is safe."""
+"""C09: notify / free / create on related notes is safe (sequential half)."""
 from checks import e3check
 
-QUICK = ['note_freechild_notifyroot_R3', 'note_newunderroot_notifyroot_R3']
-THOROUGH = ['note_freegrand_freechild_R3', 'note_freechild_notifyroot_R4', 'note_freegrand_freechild_R4', 'note_notifyroot_notifychild_R3']
-scenarios, jobs, confirm, info = e3check.make('C09', QUICK, THOROUGH, 'Same harness: free(child) || notify(root), new-child(root) || notify(root), free(grand) || free(child). Freed notes are never reused and every access asserts liveness of the object (use-after-free oracle); deadlock oracle; after free(child) a later notify(root) must reach the adopted grandchild.', ['nsync_note_free', 'nsync_note_new', 'nsync_note_notify', 'note_notify_child'], ['two threads notifying the same note together with a third freeing its parent'])
+QUICK = ['ns_h_expiry_R1']
+THOROUGH = ['ns_h_free_adopt_R1', 'note_freechild_notifyroot_R3']
+scenarios, jobs, confirm, info = e3check.make('C09', QUICK, THOROUGH,
+    'SEQUENTIAL HALF ONLY, and only in the thorough tier: harness/e3/note_seq.c h_free_adopt - after nsync_note_free(child) the grandchild is adopted by the root (a later notify(root) reaches it), every note can then be '
+    'freed, and no access touches a freed note (liveness bit per object in the memory model). The quick tier only re-checks the tree construction (h_expiry). The concurrent half of the property (2..4 threads notifying, '
+    'freeing and creating related notes) is NOT decided: see DESIGN.md section 6.',
+    ['nsync_note_free', 'nsync_note_new', 'nsync_note_notify', 'note_notify_child'],
+    ['every concurrent behaviour of notes'])
+WORKERS = 4
